@@ -394,6 +394,7 @@ class PacketFIFO(LiteXModule):
         self.comb += [
             param_fifo.source.connect(source,   omit={"last",  "ready", "dummy"}),
             payload_fifo.source.connect(source, omit={"valid", "ready"}),
+            source.valid.eq(param_fifo.source.valid & payload_fifo.source.valid),
             param_fifo.source.ready.eq(  source.valid & source.last & source.ready),
             payload_fifo.source.ready.eq(source.valid &               source.ready),
         ]
